@@ -4,6 +4,7 @@
 -/
 import Gozod.Proofs.C07
 import Gozod.Model.FromJson
+import Gozod.Proofs.C11Json
 import Gozod.Gen.KeywordTable
 namespace Gozod.C11
 open Gozod.Jsc Gozod.C07
@@ -566,13 +567,6 @@ theorem toPrim_ofPrim (p : Prim) : (Json.ofPrim p).toPrim? = some p := by cases 
 theorem ofPrim_of_toPrim (v : Json) (p : Prim) (h : v.toPrim? = some p) : v = .ofPrim p := by
   cases v <;> simp [Json.toPrim?] at h <;> subst h <;> rfl
 
-theorem litOfJ_ofPrim (p : Prim) : litOfJ (.ofPrim p) = litOf p := by simp [litOfJ, toPrim_ofPrim]
-
-theorem map_litOfJ_ofPrim (ps : List Prim) : (ps.map Json.ofPrim).map litOfJ = ps.map litOf := by
-  induction ps with
-  | nil => rfl
-  | cons p ps ih => simp [litOfJ_ofPrim]
-
 theorem allStrsJ_ofPrim (ps : List Prim) : allStrsJ (ps.map Json.ofPrim) = allStrs ps := by
   induction ps with
   | nil => rfl
@@ -586,19 +580,48 @@ theorem allStrs_some (ps : List Prim) (strs : List Str) (h : allStrs ps = some s
     obtain ⟨r, hr, rfl⟩ := h
     simp [ih r hr]
 
+theorem allStrsJ_some (vs : List Json) (strs : List Str) (h : allStrsJ vs = some strs) : vs = strs.map Json.str := by
+  induction vs generalizing strs with
+  | nil => simp [allStrsJ] at h; subst h; rfl
+  | cons v vs ih =>
+    cases v <;> simp [allStrsJ] at h
+    obtain ⟨r, hr, rfl⟩ := h
+    simp [ih r hr]
+
+/-! #### the two views of a const / enum document: `CE` (members are decoded Go values) and `fromJS` (primitive members) -/
+
+/-- the `S` term of the literal schema of a primitive member is `litOf`'s. -/
+theorem toS_literalSchemaJ_ofPrim (p : Prim) : litOf p = .ok s → (literalSchemaJ (.ofPrim p)).toS? = some s := by
+  cases p <;> simp [litOf, literalSchemaJ, Json.ofPrim, LitZ.toS?, Json.toPrim?] <;> intro h <;> exact h
+
+theorem litOf_ok (p : Prim) : ∃ s, litOf p = .ok s := by cases p <;> simp [litOf]
+
+theorem litsToS_prims : (ps : List Prim) →
+    ∃ ss, seqR (ps.map litOf) = .ok ss ∧ litsToS? ((ps.map Json.ofPrim).map literalSchemaJ) = some ss
+  | [] => ⟨[], rfl, rfl⟩
+  | p :: ps => by
+    obtain ⟨ss, h1, h2⟩ := litsToS_prims ps
+    obtain ⟨s, hs⟩ := litOf_ok p
+    refine ⟨s :: ss, ?_, ?_⟩
+    · simp only [List.map_cons, seqR, hs, h1]
+    · simp only [List.map_cons, litsToS?, toS_literalSchemaJ_ofPrim p hs, h2]
+
 /-- on primitive members `fromEnumJ` is `fromJS` on the document `{"enum": ps}`. -/
 theorem fromEnumJ_prims (T : Str → Bool) (st : Bool) (ps : List Prim) (h : ps ≠ []) :
-    fromEnumJ (ps.map Json.ofPrim) = fromJS T st (.node (.ofList [.enum ps])) := by
+    ∃ s, (fromEnumJ (ps.map Json.ofPrim)).toS? = some s ∧ fromJS T st (.node (.ofList [.enum ps])) = .ok s := by
   obtain ⟨v, vs, rfl⟩ := List.exists_cons_of_ne_nil h
   have h1 := allStrsJ_ofPrim (v :: vs)
-  have h2 := map_litOfJ_ofPrim (v :: vs)
-  simp only [List.map_cons] at h1 h2
-  simp only [List.map_cons, fromEnumJ, h1, h2, fromJS_node, List.foldl_cons, List.foldl_nil, addKw, assemble]
-  cases allStrs (v :: vs) <;> simp
+  obtain ⟨ss, h2, h3⟩ := litsToS_prims (v :: vs)
+  simp only [List.map_cons] at h1 h2 h3
+  simp only [List.map_cons, fromEnumJ, h1, fromJS_node, List.foldl_cons, List.foldl_nil, addKw, assemble]
+  cases allStrs (v :: vs) with
+  | some strs => exact ⟨.enum strs, by simp [CE.toS?]⟩
+  | none => exact ⟨.union (slistOf ss), by simp only [CE.toS?, h3, Option.map_some], by simp [h2]⟩
 
 theorem fromConstJ_prim (T : Str → Bool) (st : Bool) (p : Prim) :
-    fromConstJ (.ofPrim p) = fromJS T st (.node (.ofList [.const p])) := by
-  simp [fromConstJ, litOfJ_ofPrim, fromJS_node, addKw, assemble]
+    ∃ s, (fromConstJ (.ofPrim p)).toS? = some s ∧ fromJS T st (.node (.ofList [.const p])) = .ok s := by
+  obtain ⟨s, hs⟩ := litOf_ok p
+  exact ⟨s, by simp [fromConstJ, CE.toS?, toS_literalSchemaJ_ofPrim p hs], by simp [fromJS_node, addKw, assemble, hs]⟩
 
 /-- on primitive members validity by `jsonEq` is `jsValid` of the document. -/
 theorem enumValidJ_prims (ps : List Prim) (x : Json) :
@@ -609,223 +632,261 @@ theorem constValidJ_prim (p : Prim) (x : Json) :
     constValidJ (.ofPrim p) x = jsValid (.node (.ofList [.const p])) x := by
   simp [constValidJ, jsValid_node, kwValid, jsonEq_ofPrim]
 
-def scalars (vs : List Json) : Bool := vs.all (fun v => v.toPrim?.isSome)
+/-! #### what the produced schema does: every member of every JSON kind -/
 
-theorem scalars_prims : (vs : List Json) → scalars vs = true → ∃ ps : List Prim, vs = ps.map Json.ofPrim
-  | [], _ => ⟨[], rfl⟩
-  | v :: vs, h => by
-    simp only [scalars, List.all_cons, Bool.and_eq_true] at h
-    obtain ⟨ps, rfl⟩ := scalars_prims vs h.2
-    obtain ⟨p, hp⟩ := Option.isSome_iff_exists.1 h.1
-    exact ⟨p :: ps, by simp [ofPrim_of_toPrim v p hp]⟩
+/-- `Contains` on a one-value literal. -/
+theorem containsBy_single (v x : Json) : containsBy literalEqual [v] x = some (jsonEq v x) := by
+  simp only [containsBy, literalEqual_eq]
+  cases jsonEq v x <;> rfl
 
-/-- the enum documents the equivalence is proved for: at least one member, every member a scalar (any mixture of
-    booleans, numbers and strings, in any order, with repeats, with strings that spell other members), no null member
-    (class nullable-union). -/
-def goodEnumJ (vs : List Json) : Bool := !vs.isEmpty && scalars vs && !vs.any (fun v => v.isNull)
+/-- the literal schema of ANY member (scalar, null, array, object) never panics and accepts exactly the instances
+    JSON-equal to the member. -/
+theorem parse_literalSchemaJ (v x : Json) : (literalSchemaJ v).parseBy literalEqual x = some (jsonEq v x) := by
+  cases v <;> cases x <;> simp [literalSchemaJ, LitZ.parseBy, Json.isNull, containsBy_single, jsonEq]
 
-/-- a Literal / Enum over scalar members never meets an uncomparable pair. -/
-theorem scalars_no_panic (vs : List Json) (x : Json) (h : scalars vs = true) : parsePanicsJ vs x = false := by
-  have : vs.any (fun v => sameComposite x v) = false := by
-    induction vs with
-    | nil => rfl
-    | cons v vs ih =>
-      simp only [scalars, List.all_cons, Bool.and_eq_true] at h
-      have hv : sameComposite x v = false := by
-        cases v <;> simp [Json.toPrim?] at h <;> cases x <;> simp [sameComposite]
-      simp [hv, ih (by simpa [scalars] using h.2)]
-  simp [parsePanicsJ, this]
-
-theorem null_any_ofPrim (ps : List Prim) : (ps.map Json.ofPrim).any (fun v => v.isNull) = ps.contains .null := by
-  induction ps with
-  | nil => rfl
-  | cons p ps ih => cases p <;> simp_all [Json.ofPrim, Json.isNull]
-
-/-- C11 for enum documents, by JSON equality: FromJSONSchema returns a schema whose ParseAny never panics and accepts
-    exactly the instances JSON-equal to a member — whatever the other members are. -/
-theorem c11_enum_partial (vs : List Json) (x : Json) (h : goodEnumJ vs = true) (hx : instOK x = true) :
-    ∃ s, fromEnumJ vs = .ok s ∧ parsePanicsJ vs x = false ∧ acceptsDecoded s x = enumValidJ vs x := by
-  simp only [goodEnumJ, Bool.and_eq_true, Bool.not_eq_true', List.isEmpty_eq_false_iff] at h
-  obtain ⟨⟨hne, hsc⟩, hnull⟩ := h
-  obtain ⟨ps, rfl⟩ := scalars_prims vs hsc
-  have hps : ps ≠ [] := by intro e; subst e; exact hne rfl
-  rw [null_any_ofPrim] at hnull
-  have key : ∀ d : J1, good d = true → d.doc = .node (.ofList [.enum ps]) →
-      ∃ s, fromEnumJ (ps.map Json.ofPrim) = .ok s ∧ parsePanicsJ (ps.map Json.ofPrim) x = false
-        ∧ acceptsDecoded s x = enumValidJ (ps.map Json.ofPrim) x := by
-    intro d hd hdoc
-    obtain ⟨s, hs, he⟩ := c11_equiv_partial (fun _ => false) false d x hd hx
-    exact ⟨s, by rw [fromEnumJ_prims (fun _ => false) false ps hps, ← hdoc]; exact hs, scalars_no_panic _ x hsc,
-      by rw [enumValidJ_prims, ← hdoc]; exact he.symm⟩
-  cases hs : allStrs ps with
-  | some strs =>
-    have e := allStrs_some ps strs hs
-    subst e
-    refine key (.enumS strs) ?_ (by simp [J1.doc])
-    simp only [good, Bool.not_eq_true', List.isEmpty_eq_false_iff]
-    intro e; subst e; exact hps rfl
-  | none =>
-    refine key (.enumP ps) ?_ (by simp [J1.doc])
-    have hn : Prim.null ∉ ps := by simpa using hnull
-    simp [good, hs, hn, hps]
-
-/-- every member of an enum document is accepted — the other members cannot shadow it. -/
-theorem c11_enum_members_accepted (vs : List Json) (m : Json) (h : goodEnumJ vs = true) (hm : m ∈ vs)
-    (hi : instOK m = true) : ∃ s, fromEnumJ vs = .ok s ∧ acceptsDecoded s m = true := by
-  obtain ⟨s, hs, _, he⟩ := c11_enum_partial vs m h hi
-  refine ⟨s, hs, ?_⟩
-  rw [he, enumValidJ, List.any_eq_true]
-  simp only [goodEnumJ, Bool.and_eq_true, scalars, List.all_eq_true] at h
-  exact ⟨m, hm, jsonEq_refl_scalar m (h.1.2 m hm)⟩
-
-example : goodEnumJ [.num 4, .str [49], .bool true, .str [116, 114, 117, 101], .num 4] = true := by decide
-
-/-- C11 for const documents with a scalar value (null included). -/
-theorem c11_const_partial (v x : Json) (h : v.toPrim?.isSome = true) (hx : instOK x = true) :
-    ∃ s, fromConstJ v = .ok s ∧ parsePanicsJ [v] x = false ∧ acceptsDecoded s x = constValidJ v x := by
-  obtain ⟨p, hp⟩ := Option.isSome_iff_exists.1 h
-  have e := ofPrim_of_toPrim v p hp
-  subst e
-  obtain ⟨s, hs, he⟩ := c11_equiv_partial (fun _ => false) false (.const p) x (by simp [good]) hx
-  refine ⟨s, ?_, scalars_no_panic _ x (by simp [scalars, toPrim_ofPrim]), ?_⟩
-  · rw [fromConstJ_prim (fun _ => false) false p]; simpa [J1.doc] using hs
-  · rw [constValidJ_prim]; simpa [J1.doc] using he.symm
-
-example : (Json.str [49]).toPrim?.isSome = true := by decide
-
-/-! #### scalar instances against ANY member list (arrays / objects / null among the members included) -/
-
-/-- the schema `literalSchema` builds for a member. -/
-def litS (v : Json) : S :=
-  match v.toPrim? with
-  | some .null => .nil
-  | some p => .lit [p]
-  | none => .lit []
-
-theorem litOfJ_eq (v : Json) : litOfJ v = .ok (litS v) := by
-  cases v <;> simp [litOfJ, litS, Json.toPrim?, litOf]
-
-theorem seqR_litOfJ (vs : List Json) : seqR (vs.map litOfJ) = .ok (vs.map litS) := by
+theorem unionParse_members (vs : List Json) (x : Json) :
+    unionParseBy literalEqual (vs.map literalSchemaJ) x = some (vs.any (fun v => jsonEq v x)) := by
   induction vs with
   | nil => rfl
-  | cons v vs ih => simp only [List.map_cons, seqR, litOfJ_eq, ih]
-
-theorem plainify_litS (v : Json) : plainify (litS v) = litS v := by
-  cases v <;> simp [litS, Json.toPrim?, plainify]
-
-theorem plainifyL_litS (vs : List Json) : plainifyL (slistOf (vs.map litS)) = slistOf (vs.map litS) := by
-  induction vs with
-  | nil => rfl
-  | cons v vs ih => simp [slistOf, plainifyL, plainify_litS, ih]
-
-theorem accepts_litS (v x : Json) (hx : x.toPrim?.isSome = true) (hn : x.isNull = false) :
-    accepts (litS v) x = jsonEq x v := by
-  cases v <;> cases x <;> simp_all [litS, Json.toPrim?, accepts, jsonEq, Json.isPrim, Json.isNull]
-
-theorem anyAccepts_litS (vs : List Json) (x : Json) (hx : x.toPrim?.isSome = true) (hn : x.isNull = false) :
-    anyAccepts (slistOf (vs.map litS)) x = vs.any (fun v => jsonEq x v) := by
-  induction vs with
-  | nil => rfl
-  | cons v vs ih => simp [slistOf, anyAccepts, accepts_litS v x hx hn, ih]
-
-theorem allStrsJ_some (vs : List Json) (strs : List Str) (h : allStrsJ vs = some strs) : vs = strs.map Json.str := by
-  induction vs generalizing strs with
-  | nil => simp [allStrsJ] at h; subst h; rfl
   | cons v vs ih =>
-    cases v <;> simp [allStrsJ] at h
-    obtain ⟨r, hr, rfl⟩ := h
-    simp [ih r hr]
+    simp only [List.map_cons, unionParseBy, parse_literalSchemaJ, List.any_cons]
+    cases jsonEq v x <;> simp [ih]
 
 theorem any_jsonEq_strs (strs : List Str) (x : Json) :
-    (strs.map Json.str).any (fun v => jsonEq x v) = (match x with | .str s => strs.contains s | _ => false) := by
+    (strs.map Json.str).any (fun v => jsonEq v x) = (match x with | .str s => strs.contains s | _ => false) := by
   induction strs with
   | nil => cases x <;> simp
   | cons s strs ih =>
     simp only [List.map_cons, List.any_cons, ih]
     cases x <;> simp [jsonEq]
-    rename_i a; by_cases e : a = s <;> simp [e]
+    rename_i a
+    by_cases e : a = s
+    · subst e; simp
+    · simp [e, Ne.symm e]
 
 theorem null_not_member (vs : List Json) (h : vs.any (fun v => v.isNull) = false) :
-    vs.any (fun v => jsonEq .null v) = false := by
+    vs.any (fun v => jsonEq v .null) = false := by
   induction vs with
   | nil => rfl
   | cons v vs ih =>
     simp only [List.any_cons, Bool.or_eq_false_iff] at h ⊢
     exact ⟨by cases v <;> simp_all [jsonEq, Json.isNull], ih h.2⟩
 
-theorem scalar_no_panic (vs : List Json) (x : Json) (hx : x.toPrim?.isSome = true) : parsePanicsJ vs x = false := by
-  have : vs.any (fun v => sameComposite x v) = false := by
-    induction vs with
-    | nil => rfl
-    | cons v vs ih => cases x <;> simp_all [Json.toPrim?, sameComposite]
-  simp [parsePanicsJ, this]
+/-- the one class of const / enum cases FromJSONSchema still gets wrong: a null instance against an enum that lists
+    null and is not all strings — the enum becomes a Union, whose nil path precedes the members (finding nullable-union). -/
+def nullCase (vs : List Json) (x : Json) : Bool := x.isNull && vs.any (fun v => v.isNull)
 
-/-- the enum documents for which a SCALAR instance is judged correctly: any members whatsoever — arrays, objects, null,
-    repeats, strings spelling other members — provided the instance is not null or null is not a member. -/
-def scalarCase (vs : List Json) (x : Json) : Bool :=
-  !vs.isEmpty && x.toPrim?.isSome && (!x.isNull || !vs.any (fun v => v.isNull))
-
-/-- C11 for enum documents with arbitrary members, on scalar instances: FromJSONSchema succeeds, ParseAny does not panic,
-    and the instance is accepted iff it is JSON-equal to a member.  (Array / object members never match a scalar, and the
-    Literal built for them never accepts one.) -/
-theorem c11_enum_scalar_instance (vs : List Json) (x : Json) (h : scalarCase vs x = true) :
-    ∃ s, fromEnumJ vs = .ok s ∧ parsePanicsJ vs x = false ∧ acceptsDecoded s x = enumValidJ vs x := by
-  simp only [scalarCase, Bool.and_eq_true, Bool.or_eq_true, Bool.not_eq_true', List.isEmpty_eq_false_iff] at h
-  obtain ⟨⟨hne, hx⟩, hnull⟩ := h
+/-- members are compared with the instance by JSON equality, member first (the orientation of `literalEqual`). -/
+theorem parse_fromEnumJ (vs : List Json) (x : Json) (hne : vs ≠ []) (hn : nullCase vs x = false) :
+    (fromEnumJ vs).parse x = some (vs.any (fun v => jsonEq v x)) := by
   obtain ⟨v, vs', rfl⟩ := List.exists_cons_of_ne_nil hne
+  simp only [fromEnumJ, CE.parse]
   cases hs : allStrsJ (v :: vs') with
   | some strs =>
-    refine ⟨.enum strs, by simp [fromEnumJ, hs], scalar_no_panic _ x hx, ?_⟩
-    rw [allStrsJ_some _ strs hs, enumValidJ, any_jsonEq_strs]
-    cases x <;> simp [acceptsDecoded, plainify, accepts]
+    simp only [CE.parseBy]
+    rw [allStrsJ_some _ strs hs, any_jsonEq_strs]
+    cases x <;> rfl
   | none =>
-    have hq := seqR_litOfJ (v :: vs')
-    refine ⟨.union (slistOf ((v :: vs').map litS)), by simp only [fromEnumJ, hs, hq], scalar_no_panic _ x hx, ?_⟩
-    simp only [acceptsDecoded, plainify, plainifyL_litS, accepts, enumValidJ]
-    cases hn : x.isNull with
-    | false =>
-      have := anyAccepts_litS (v :: vs') x hx hn
-      simp only [List.map_cons] at this
-      simp [this]
+    simp only [CE.parseBy]
+    cases hx : x.isNull with
+    | false => simpa using unionParse_members (v :: vs') x
     | true =>
-      have e := (isNull_iff x).1 hn
+      have e := (isNull_iff x).1 hx
       subst e
-      rcases hnull with h0 | h0
-      · simp [Json.isNull] at h0
-      · simp [null_not_member _ h0]
+      simp only [nullCase, Json.isNull, Bool.true_and] at hn
+      simp [null_not_member _ hn]
 
-example : scalarCase [.arr (.cons (.num 4) .nil), .str [91, 49, 93], .null, .obj .nil] (.str [91, 49, 93]) = true := by decide
+theorem any_symm (vs : List Json) (x : Json) (hv : ∀ v ∈ vs, uniqKeys v = true) (hx : uniqKeys x = true) :
+    vs.any (fun v => jsonEq v x) = vs.any (fun v => jsonEq x v) := by
+  induction vs with
+  | nil => rfl
+  | cons v vs ih =>
+    simp only [List.any_cons]
+    rw [jsonEq_symm v x (hv v (by simp)) hx, ih (fun w hw => hv w (by simp [hw]))]
 
-/-- full strength over all members: FALSE on the pinned code — an array / object member is never accepted, and an
-    instance of its kind makes ParseAny panic (finding composite-literal); a null member of a union is shadowed by the
-    union's nil path (finding nullable-union). -/
+/-- **C11 for enum documents, members and instances of every JSON kind** (arrays and objects included, any mixture,
+    repeats, strings spelling other members): FromJSONSchema returns a schema whose ParseAny does not panic and accepts
+    exactly the instances JSON-equal to a member — outside the nullable-union class. -/
+theorem c11_enum_partial (vs : List Json) (x : Json) (hne : vs ≠ []) (hn : nullCase vs x = false)
+    (hv : ∀ v ∈ vs, uniqKeys v = true) (hx : uniqKeys x = true) :
+    (fromEnumJ vs).parse x = some (enumValidJ vs x) := by
+  rw [parse_fromEnumJ vs x hne hn, enumValidJ, any_symm vs x hv hx]
+
+example : nullCase [.arr (.cons (.num 4) .nil), .str [91, 49, 93], .null, .obj .nil] (.arr (.cons (.num 4) .nil)) = false := by decide
+
+/-- full strength over all members and instances: FALSE on the code as it stands, in the nullable-union class only. -/
 def c11_members_full : Prop :=
-  ∀ (vs : List Json) (x : Json), vs ≠ [] →
-    ∃ s, fromEnumJ vs = .ok s ∧ parsePanicsJ vs x = false ∧ acceptsDecoded s x = enumValidJ vs x
+  ∀ (vs : List Json) (x : Json), vs ≠ [] → (∀ v ∈ vs, uniqKeys v = true) → uniqKeys x = true →
+    (fromEnumJ vs).parse x = some (enumValidJ vs x)
 
-/-- the Parse verdict of the converted schema (`none`: the conversion fails). -/
-def verdictR (r : R) (x : Json) : Option Bool :=
-  match r with
-  | .ok s => some (acceptsDecoded s x)
-  | .error _ => none
+/-- in the excluded class the produced schema always rejects, although the instance is valid. -/
+theorem c11_enum_null_rejected (vs : List Json) (h : nullCase vs .null = true) (hs : (allStrsJ vs).isNone = true) :
+    (fromEnumJ vs).parse .null = some false ∧ enumValidJ vs .null = true := by
+  refine ⟨?_, ?_⟩
+  · cases vs with
+    | nil => simp [nullCase] at h
+    | cons v vs' =>
+      cases hs' : allStrsJ (v :: vs') with
+      | some _ => simp [hs'] at hs
+      | none => simp [fromEnumJ, hs', CE.parse, CE.parseBy, Json.isNull]
+  · simp only [nullCase, Json.isNull, Bool.true_and] at h
+    rw [enumValidJ, List.any_eq_true] at *
+    obtain ⟨v, hv, hn⟩ := h
+    exact ⟨v, hv, by rw [(isNull_iff v).1 hn]; rfl⟩
 
-theorem witness_composite_member :
-    enumValidJ [.arr (.cons (.num 4) .nil), .str [120]] (.arr (.cons (.num 4) .nil)) = true
-    ∧ parsePanicsJ [.arr (.cons (.num 4) .nil), .str [120]] (.arr (.cons (.num 4) .nil)) = true
-    ∧ verdictR (fromEnumJ [.arr (.cons (.num 4) .nil), .str [120]]) (.arr (.cons (.num 4) .nil)) = some false
-    ∧ verdictR (fromEnumJ [.arr (.cons (.num 4) .nil), .str [120]]) (.str [120]) = some true
-    ∧ parsePanicsJ [.arr (.cons (.num 4) .nil), .str [120]] (.arr .nil) = true
-    ∧ parsePanicsJ [.arr (.cons (.num 4) .nil), .str [120]] (.obj .nil) = false := by decide
+theorem allStrsJ_none_of_null (vs : List Json) (h : vs.any (fun v => v.isNull) = true) : (allStrsJ vs).isNone = true := by
+  induction vs with
+  | nil => simp at h
+  | cons v vs ih =>
+    cases v with
+    | str s =>
+      have h' : vs.any (fun v => v.isNull) = true := by simpa [Json.isNull] using h
+      have := ih h'
+      cases hs : allStrsJ vs with
+      | none => simp [allStrsJ, hs]
+      | some r => simp [hs] at this
+    | _ => simp [allStrsJ]
 
-theorem witness_composite_const :
-    constValidJ (.obj (.cons [97] (.num 4) .nil)) (.obj (.cons [97] (.num 4) .nil)) = true
-    ∧ verdictR (fromConstJ (.obj (.cons [97] (.num 4) .nil))) (.obj (.cons [97] (.num 4) .nil)) = some false
-    ∧ parsePanicsJ [.obj (.cons [97] (.num 4) .nil)] (.obj (.cons [97] (.num 4) .nil)) = true := by decide
+theorem witness_null_member :
+    (fromEnumJ [.null, .num 4]).parse .null = some false ∧ enumValidJ [.null, .num 4] .null = true
+    ∧ (fromEnumJ [.null]).parse .null = some false ∧ enumValidJ [.null] .null = true := by decide
 
 theorem c11_members_full_false : ¬ c11_members_full := by
   intro h
-  obtain ⟨s, _, hp, _⟩ := h [.arr (.cons (.num 4) .nil), .str [120]] (.arr (.cons (.num 4) .nil)) (by simp)
-  exact absurd hp (by decide)
+  have := h [.null, .num 4] .null (by simp) (by decide) (by decide)
+  exact absurd this (by decide)
+
+/-- every member of an enum document is accepted — no other member shadows it (what seeded/C11b breaks); a null
+    member is the exception (nullable-union). -/
+theorem c11_enum_members_accepted (vs : List Json) (m : Json) (hm : m ∈ vs) (hnn : m.isNull = false)
+    (hu : uniqKeys m = true) : (fromEnumJ vs).parse m = some true := by
+  have hne : vs ≠ [] := by intro e; subst e; simp at hm
+  rw [parse_fromEnumJ vs m hne (by simp [nullCase, hnn])]
+  congr 1
+  exact List.any_eq_true.2 ⟨m, hm, jsonEq_refl m hu⟩
+
+/-- **C11 for const documents at full strength**: any value (null, scalar, array, object), any instance. -/
+theorem c11_const (v x : Json) (hv : uniqKeys v = true) (hx : uniqKeys x = true) :
+    (fromConstJ v).parse x = some (constValidJ v x) := by
+  rw [constValidJ, ← jsonEq_symm v x hv hx]
+  simp only [fromConstJ, CE.parse, CE.parseBy, parse_literalSchemaJ]
+
+/-- scalar instances need no hypothesis on the members (array / object members never equal a scalar). -/
+theorem jsonEq_symm_scalar (v x : Json) (hx : x.toPrim?.isSome = true) : jsonEq v x = jsonEq x v := by
+  cases x <;> simp [Json.toPrim?] at hx <;> cases v <;> simp [jsonEq] <;> exact BEq.comm
+
+def scalarCase (vs : List Json) (x : Json) : Bool :=
+  !vs.isEmpty && x.toPrim?.isSome && !nullCase vs x
+
+theorem c11_enum_scalar_instance (vs : List Json) (x : Json) (h : scalarCase vs x = true) :
+    (fromEnumJ vs).parse x = some (enumValidJ vs x) := by
+  simp only [scalarCase, Bool.and_eq_true, Bool.not_eq_true', List.isEmpty_eq_false_iff] at h
+  rw [parse_fromEnumJ vs x h.1.1 h.2, enumValidJ]
+  congr 1
+  have hx := h.1.2
+  clear h
+  induction vs with
+  | nil => rfl
+  | cons v vs ih => simp only [List.any_cons, jsonEq_symm_scalar v x hx, ih]
+
+example : scalarCase [.arr (.cons (.num 4) .nil), .str [91, 49, 93], .null, .obj .nil] (.str [91, 49, 93]) = true := by decide
+
+/-- where the `S` view exists (all members scalars) the two Parse verdicts coincide: `acceptsDecoded` of C07's schema
+    model is what `CE.parse` computes. -/
+theorem accepts_lit_prim (p : Prim) (x : Json) (hp : p ≠ .null) : accepts (.lit [p]) x = jsonEq (.ofPrim p) x := by
+  cases p <;> cases x <;> simp_all [accepts, Json.isPrim, jsonEq, Json.ofPrim] <;> exact BEq.comm
+
+theorem parse_toS_lit (l : LitZ) (s : S) (x : Json) (h : l.toS? = some s) (hl : ∀ v, l = .lit v → v.isNull = false) :
+    l.parseBy literalEqual x = some (acceptsDecoded s x) := by
+  cases l with
+  | nil => simp [LitZ.toS?] at h; subst h; simp [LitZ.parseBy, acceptsDecoded, plainify, accepts]
+  | lit v =>
+    have hv := hl v rfl
+    simp only [LitZ.toS?, Option.map_eq_some_iff] at h
+    obtain ⟨p, hp, rfl⟩ := h
+    have e := ofPrim_of_toPrim v p hp
+    subst e
+    have hpn : p ≠ .null := by intro e; subst e; simp [Json.ofPrim, Json.isNull] at hv
+    have := parse_literalSchemaJ (.ofPrim p) x
+    have hls : literalSchemaJ (.ofPrim p) = .lit (.ofPrim p) := by cases p <;> simp_all [literalSchemaJ, Json.ofPrim]
+    rw [hls] at this
+    simp [this, acceptsDecoded, plainify, accepts_lit_prim p x hpn]
+
+theorem literalSchemaJ_lit (v w : Json) (h : literalSchemaJ v = .lit w) : w.isNull = false := by
+  cases v <;> simp [literalSchemaJ] at h <;> subst h <;> rfl
+
+theorem unionParse_toS (x : Json) : (ls : List LitZ) → (ss : List S) → litsToS? ls = some ss →
+    (∀ l ∈ ls, ∀ v, l = .lit v → v.isNull = false) →
+    unionParseBy literalEqual ls x = some (anyAccepts (plainifyL (slistOf ss)) x)
+  | [], ss, h, _ => by simp [litsToS?] at h; subst h; rfl
+  | l :: ls, ss, h, hl => by
+    simp only [litsToS?] at h
+    cases h1 : l.toS? with
+    | none => simp [h1] at h
+    | some s =>
+      cases h2 : litsToS? ls with
+      | none => simp [h1, h2] at h
+      | some ss' =>
+        simp [h1, h2] at h
+        subst h
+        have ih := unionParse_toS x ls ss' h2 (fun l' hl' => hl l' (by simp [hl']))
+        have hp := parse_toS_lit l s x h1 (hl l (by simp))
+        simp only [unionParseBy, hp, ih, slistOf, plainifyL, anyAccepts, acceptsDecoded]
+        cases accepts (plainify s) x <;> simp
+
+/-- the two views agree wherever both exist: the verdict `CE.parse` computes for an enum document is the verdict of
+    C07's schema model on the `S` term `fromJS` returns for it. -/
+theorem parse_toS_enum (vs : List Json) (s : S) (x : Json) (h : (fromEnumJ vs).toS? = some s) :
+    (fromEnumJ vs).parse x = some (acceptsDecoded s x) := by
+  cases vs with
+  | nil => simp [fromEnumJ, CE.toS?] at h; subst h; simp [fromEnumJ, CE.parse, CE.parseBy, acceptsDecoded, plainify, accepts]
+  | cons v vs' =>
+    simp only [fromEnumJ, CE.parse] at h ⊢
+    cases hs : allStrsJ (v :: vs') with
+    | some strs =>
+      simp only [hs, CE.toS?, Option.some.injEq] at h
+      subst h
+      cases x <;> simp [CE.parseBy, acceptsDecoded, plainify, accepts]
+    | none =>
+      simp only [hs, CE.toS?, Option.map_eq_some_iff] at h
+      obtain ⟨ss, hss, rfl⟩ := h
+      have := unionParse_toS x _ ss hss (by
+        intro l hl w hw
+        obtain ⟨u, _, hu⟩ := List.mem_map.1 hl
+        exact literalSchemaJ_lit u w (hu.trans hw))
+      simp only [CE.parseBy, this, acceptsDecoded, plainify, accepts]
+      cases x.isNull <;> simp
+
+theorem parse_toS_const (v : Json) (s : S) (x : Json) (h : (fromConstJ v).toS? = some s) :
+    (fromConstJ v).parse x = some (acceptsDecoded s x) := by
+  simp only [fromConstJ, CE.toS?] at h
+  exact parse_toS_lit _ s x h (fun w hw => literalSchemaJ_lit v w hw)
+
+/-! #### the code before e48d4b1 (`Contains` compared with `==`): kept as a statement about `legacyParse` -/
+
+/-- the legacy comparison panicked on an instance of the same composite kind as a member, valid instances included. -/
+theorem legacy_composite_member_panics :
+    (fromEnumJ [.arr (.cons (.num 4) .nil), .str [120]]).legacyParse (.arr (.cons (.num 4) .nil)) = none
+    ∧ (fromEnumJ [.arr (.cons (.num 4) .nil), .str [120]]).legacyParse (.arr .nil) = none
+    ∧ (fromEnumJ [.arr (.cons (.num 4) .nil), .str [120]]).legacyParse (.str [120]) = some true
+    ∧ (fromConstJ (.obj (.cons [97] (.num 4) .nil))).legacyParse (.obj (.cons [97] (.num 4) .nil)) = none
+    ∧ (fromEnumJ [.arr (.cons (.num 4) .nil), .str [120]]).parse (.arr (.cons (.num 4) .nil)) = some true
+    ∧ (fromEnumJ [.arr (.cons (.num 4) .nil), .str [120]]).parse (.arr .nil) = some false
+    ∧ (fromConstJ (.obj (.cons [97] (.num 4) .nil))).parse (.obj (.cons [97] (.num 4) .nil)) = some true := by decide
+
+/-- the code as it stands never panics on a const / enum schema. -/
+theorem c11_members_no_panic (vs : List Json) (x : Json) : ∃ b, (fromEnumJ vs).parse x = some b := by
+  cases vs with
+  | nil => exact ⟨true, rfl⟩
+  | cons v vs' =>
+    simp only [fromEnumJ, CE.parse]
+    cases allStrsJ (v :: vs') with
+    | some strs => exact ⟨_, rfl⟩
+    | none =>
+      simp only [CE.parseBy]
+      cases x.isNull with
+      | true => exact ⟨false, rfl⟩
+      | false => exact ⟨_, unionParse_members (v :: vs') x⟩
 
 /-! ### round trip: ToJSONSchema (FromJSONSchema doc) validates the same instances -/
 
